@@ -29,6 +29,8 @@ def configs(quick):
              "solver": "fast_diagonalisation", "h": 2.0, "dt": 4.0, "nu": 1.0},
             {"sim": "pt_scalar", "shape": (7, 9), "h": 0.25, "dt": 0.5, "nu": 0.125},
             {"sim": "pt_vector", "shape": (6, 7, 6), "h": 2.0, "dt": 4.0, "nu": 2.0},
+            # the OpenMP path of the simulators (num_threads > 1)
+            {"sim": "ns2", "shape": (9, 11), "forcing": True, "free_stream": False, "w": 3, "h": 0.5, "dt": 2.0, "rho": 2.0, "nu": 0.125, "threads": 4},
         ]
     out = []
     for forcing, fs, w in itertools.product((False, True), (False, True), (0, 1, 2, 3, 4)):
